@@ -50,9 +50,12 @@ def _poly_drift(order, frametimes):
     """
     order = int(order)
     pol = np.zeros((np.size(frametimes), order + 1))
-    tmax = float(frametimes.max())
+    # time relative to the first scan: the basis must not depend on the time
+    # origin (raw t / tmax is ill-conditioned far from 0 and fails for tmax = 0)
+    tmin = float(frametimes.min())
+    tmax = float(frametimes.max()) - tmin
     for k in range(order + 1):
-        pol[:, k] = (frametimes / tmax) ** k
+        pol[:, k] = ((frametimes - tmin) / tmax) ** k
     pol = _orthogonalize(pol)
     pol = np.hstack((pol[:, 1:], pol[:, :1]))
     return pol
